@@ -64,6 +64,28 @@ Theorem C10_source_shape :
 Proof. exact (conj table_guards (conj table_identities evm_sites_expected)). Qed.
 Print Assumptions C10_source_shape.
 
+(* the amount guards of the model are the sign tests found in the argument validation of the source *)
+Theorem C10_amount_guards :
+  arg_sign_checks =
+  [("ApproveSharesArgs", "Shares", "<", "0"); ("DelegateV2Args", "Amount", "<=", "0");
+   ("RedelegateArgs", "Shares", "<=", "0"); ("RedelegateV2Args", "Amount", "<=", "0");
+   ("TransferSharesArgs", "Shares", "<=", "0"); ("TransferFromSharesArgs", "Shares", "<=", "0");
+   ("UndelegateArgs", "Shares", "<=", "0"); ("UndelegateV2Args", "Amount", "<=", "0");
+   ("CancelSendToExternalArgs", "TxID", "<=", "0"); ("CrossChainArgs", "Amount", "<=", "0");
+   ("CrossChainArgs", "Fee", "<", "0"); ("IncreaseBridgeFeeArgs", "TxID", "<=", "0");
+   ("IncreaseBridgeFeeArgs", "Fee", "<=", "0"); ("BridgeCallArgs", "Value", "!=", "0");
+   ("ExecuteClaimArgs", "EventNonce", "<=", "0")]%string.
+Proof. exact arg_sign_checks_expected. Qed.
+Print Assumptions C10_amount_guards.
+
+(* a caller without allowance cannot make transferFromShares succeed, whatever the amount *)
+Theorem C10_no_allowance_no_transfer : forall k st caller value v from to sh s,
+  alw s v from caller <= 0 ->
+  entry k st caller value (CTransferFromShares v from to sh) s = Some Err \/
+  entry k st caller value (CTransferFromShares v from to sh) s = None.
+Proof. exact no_allowance_no_transfer. Qed.
+Print Assumptions C10_no_allowance_no_transfer.
+
 (* "fails when reached through a static context" is FALSE of the code: the flag handed to the precompile does not
    depend on the interpreter being inside a STATICCALL ... *)
 Theorem C10_static_context_invisible : forall k caller c s,
